@@ -46,7 +46,7 @@ META = {
         "Python's format mini-language (validated per written line), of np.genfromtxt fixed-width splitting / ChainParser slicing / "
         "str.split (validated per parsed line); the translator harness/drivers/c17_layouts.py (fail-closed); the identifier lengths "
         "of the formats written in the driver's ROWS table; which lines a writer emits for an input (row selection, sorting) is "
-        "re-implemented in the driver and validated by comparing complete files.  csv_, gamit_*, gipsyx_site_info are not covered."),
+        "re-implemented in the driver and validated by comparing complete files.  gamit_*, gipsyx_site_info are not covered."),
 }
 
 THEOREMS = [
@@ -1309,7 +1309,9 @@ def run(ctx):
               "22-character serials, 4-digit eccentricities, 9-digit coordinates) through bernese_crd/vel/clu/abb/sta; random datasets "
               "(1..400 unsorted epochs, 1..2 stations, optional sigma/correlation/ENU/GNSS columns, NaN; edge streams wide ENU / sigma / "
               "counts, 10-character station, 4-character agency) through sinex_tms; every written line compared with the model in Coq, "
-              "re-read by bernese_crd / bernese_clu / bernese_sta_v52 / sinex_tms parsers; input digests before/after. "
+              "re-read by bernese_crd / bernese_clu / bernese_sta_v52 / sinex_tms parsers; every station of multi-station datasets with common "
+              "epochs is written; site-log style identifiers (long names, country code, plate); csv_ on datasets with several rows per epoch, "
+              "re-read by the csv_ parser; input digests before/after. "
               "distinct_nontrivial = distinct coordinate / station-information / time-series rows"),
     )
 
